@@ -83,9 +83,89 @@ func c10Unlinked(doc *gedcom.Document) []gedcom.Node {
 	return out
 }
 
+// c10Read is an earlier use of the document in the same process, before it is edited and merged:
+// whatever the document remembers about its records (lists of individuals / families, pointer
+// table, family links) is filled by it. Returns what was done ("" = nothing).
+func c10Read(r *Rand, doc *gedcom.Document) string {
+	switch r.Intn(7) {
+	case 0:
+		doc.Individuals()
+		return "earlier read: Individuals()"
+	case 1:
+		doc.Families()
+		doc.Individuals()
+		return "earlier read: Families(), Individuals()"
+	case 2:
+		doc.Warnings()
+		return "earlier read: Warnings()"
+	case 3:
+		// an earlier merge of the same document (result discarded)
+		if _, err := c10Merge(doc, gedcom.NewDocument(), "library", 0); err == nil {
+			return "earlier merge: MergeDocumentsAndIndividuals(doc, empty) through the library"
+		}
+	case 4:
+		if _, err := c10Merge(gedcom.NewDocument(), doc, "query", 0); err == nil {
+			return "earlier merge: MergeDocumentsAndIndividuals(empty, doc) through q"
+		}
+	}
+	return ""
+}
+
+// c10AddThroughAddNode attaches records with the generic Document.AddNode (not AddIndividual /
+// AddFamily): a person copied from another document with DeepCopy, a person
+// copied from a freshly decoded document, or a whole family (two new people and their FAM record) copied
+// record by record. Every new person carries a unique marker.
+func c10AddThroughAddNode(r *Rand, doc *gedcom.Document, tag string) string {
+	scratch := gedcom.NewDocument()
+	switch r.Intn(3) {
+	case 0:
+		src := c10AddPerson(r, scratch, "A"+tag, "A"+tag)
+		doc.AddNode(gedcom.DeepCopy(src, doc))
+		return "AddNode(DeepCopy(@A" + tag + "@ of another document))"
+	case 1:
+		// a person of a freshly decoded document
+		p := c10NewPerson(r, 950)
+		text := fmt.Sprintf("0 @A%s@ INDI\n1 NAME %s /%s/\n1 SEX %s\n1 BIRT\n2 DATE %d %s %d\n1 _MARK A%s\n", tag, p.Given, p.Surn, p.Sex, p.BD, c10Mon[p.BM-1], p.BY, tag)
+		dec, err := gedcom.NewDocumentFromString(text)
+		if err != nil || len(dec.Individuals()) != 1 {
+			return ""
+		}
+		doc.AddNode(gedcom.DeepCopy(dec.Individuals()[0], doc))
+		return "AddNode(DeepCopy(@A" + tag + "@ of a decoded document))"
+	default:
+		h := c10AddPerson(r, scratch, "A"+tag+"h", "A"+tag+"h")
+		w := c10AddPerson(r, scratch, "A"+tag+"w", "A"+tag+"w")
+		// (DeepCopy of a FAM record attaches an empty family of its own to the destination: the
+		// family is made with the family API around the two copied people instead)
+		hc, ok1 := gedcom.DeepCopy(h, doc).(*gedcom.IndividualNode)
+		wc, ok2 := gedcom.DeepCopy(w, doc).(*gedcom.IndividualNode)
+		if !ok1 || !ok2 {
+			return ""
+		}
+		doc.AddNode(hc)
+		doc.AddNode(wc)
+		doc.AddFamilyWithHusbandAndWife("FA"+tag, hc, wc)
+		return "AddNode(DeepCopy(..)) of @A" + tag + "h@ and @A" + tag + "w@, AddFamilyWithHusbandAndWife(@FA" + tag + "@)"
+	}
+}
+
+func c10CountHistory(c *Ctx, hist string) {
+	for _, k := range []string{"earlier read", "earlier merge", "AddNode(DeepCopy", "AddIndividual(", "AddFamilyWithHusbandAndWife(", "DeleteNode(", "SetNodes("} {
+		if strings.Contains(hist, k) {
+			c.Count("history:" + strings.TrimRight(k, "("))
+		}
+	}
+	if (strings.Contains(hist, "earlier") || strings.Contains(hist, "AddIndividual(")) && strings.Contains(hist, "AddNode(DeepCopy") {
+		c.Count("history:records attached through AddNode after the document was read")
+	}
+}
+
 // c10APIEdit edits a decoded document through the API and says what it did.
 func c10APIEdit(r *Rand, doc *gedcom.Document, tag string) string {
 	var hist []string
+	if rd := c10Read(r, doc); rd != "" {
+		hist = append(hist, rd)
+	}
 	switch r.Intn(4) {
 	case 0, 1:
 		if un := c10Unlinked(doc); len(un) > 0 {
@@ -123,6 +203,15 @@ func c10APIEdit(r *Rand, doc *gedcom.Document, tag string) string {
 			fam.AddChild(kid)
 			hist = append(hist, "AddIndividual(@"+ptr+"c@), AddChild")
 		}
+	}
+	if r.Chance(2, 3) {
+		// records attached through the generic AddNode, after everything above has used the document
+		if r.Chance(1, 3) {
+			if rd := c10Read(r, doc); rd != "" {
+				hist = append(hist, rd)
+			}
+		}
+		hist = append(hist, c10AddThroughAddNode(r, doc, tag))
 	}
 	return strings.Join(hist, ", ")
 }
@@ -330,6 +419,7 @@ func c10Wave2(c *Ctx, k int) {
 		} else {
 			hist = "right: " + c10APIEdit(r, rd, "1")
 		}
+		c10CountHistory(c, hist)
 		c10RunDocs(c, ld, rd, c10Describe(ld), c10Describe(rd), "api-edit", via, minSim, hist)
 	case 1: // a chain of merges
 		l, rt, _ := c10Pair(r, []string{"copy-samepointers", "copy-renumbered", "copy-shifted"}[k/4%3], 8)
@@ -345,6 +435,7 @@ func c10Wave2(c *Ctx, k int) {
 			// the independent copy is taken first, then the merge result is edited through the API
 			other := c10Remark(r, cur, []string{"S", "T"}[s-1])
 			hist := fmt.Sprintf("left = result of merge %d, then %s; right = a re-marked copy of that result", s, c10APIEdit(r, cur, tag))
+			c10CountHistory(c, hist)
 			od, err := gedcom.NewDocumentFromString(other)
 			if err != nil {
 				c.Oracle("", "a re-marked copy of a merge result does not decode", map[string]interface{}{"text": other}, err.Error(), "decodes")
